@@ -1,4 +1,5 @@
 import DimodModel.SampleSet
+import DimodModel.SampleSetMore
 import DimodModel.Wire
 open Wire SSM
 
@@ -75,6 +76,13 @@ def parseSampleLike? (s : String) : Option SampleLike :=
 
 def showTable (t : List Label × List (List Rat)) : String :=
   s!"{listOr "," showLabel t.1};{listOr "|" (listOr "," showRat) t.2}"
+
+/-- one deferred call: `R@<inplace>@<mapping>` or `C@<inplace>@<vartype>@<offset>` -/
+def parseLOp? (s : String) : Option LOp :=
+  match s.splitOn "@" with
+  | ["R", ip, m] => (parseMapping? m).map fun m => LOp.relabel m (ip = "1")
+  | ["C", ip, vt, off] => do let vt ← parseVT? vt; let off ← parseRat? off; pure (LOp.changeVt vt off (ip = "1"))
+  | _ => none
 
 abbrev Regs := List (Nat × LSS)
 
@@ -156,12 +164,12 @@ def step (regs : Regs) (line : String) : Regs × String :=
     | some vals => valOp regs r d (fun s => s.appendVec name vals)
     | none => (regs, "bad-op")
   | ["copy", r, d] => valOp regs r d some
-  | ["concat", d, rs] => match d.toNat?, (rs.splitOn ",").mapM (getSS regs) with
+  | ["concat", d, rs] => match d.toNat?, (splitOr "," rs).mapM (getSS regs) with
     | some d, some ss => match concatenate ss with
       | some s => (regs.put d (.res s), "ok " ++ showSS s)
       | none => (regs, "err")
     | _, _ => (regs, "bad-reg")
-  | ["concatd", d, rs, fills] => match d.toNat?, (rs.splitOn ",").mapM (getSS regs) with
+  | ["concatd", d, rs, fills] => match d.toNat?, (splitOr "," rs).mapM (getSS regs) with
     | some d, some ss =>
       -- fills: `name=v:v,name=v` (value per component)
       let tbl : List (String × List Rat) := (splitOr "," fills).filterMap fun (kv : String) => match kv.splitOn "=" with
@@ -206,6 +214,11 @@ def step (regs : Regs) (line : String) : Regs × String :=
       | some y => (regs.put d y, "ok " ++ showL y)
       | none => (regs, "err")
     | _, _, _, _ => (regs, "bad-op")
+  | ["lchain", r, d, ops] => match r.toNat?.bind regs.get?, d.toNat?, (splitOr ";" ops).mapM parseLOp? with
+    | some x, some d, some ops => match chainObject ops (some x) with
+      | some y => (regs.put d y, "ok " ++ showL y)
+      | none => (regs, "err")
+    | _, _, _ => (regs, "bad-op")
   | _ => (regs, "bad-op")
 
 partial def loop (h : IO.FS.Stream) (regs : Regs) : IO Unit := do
